@@ -31,7 +31,14 @@ using i128 = __int128;
 using u8 = std::uint8_t; using u16 = std::uint16_t; using u32 = std::uint32_t; using u64 = std::uint64_t;
 using i8 = std::int8_t; using i16 = std::int16_t; using i32 = std::int32_t; using i64 = std::int64_t;
 
-template <typename T> T sym(char const *const n) { return static_cast<T>(verif_u64(n)); }
+// a fresh input of exactly the width of T (no truncation of a wider variable: keeps the queries free of extracts)
+template <typename T> T sym(char const *const n)
+{
+  if constexpr (sizeof(T) == 1) return static_cast<T>(verif_u8(n));
+  else if constexpr (sizeof(T) == 2) return static_cast<T>(verif_u16(n));
+  else if constexpr (sizeof(T) == 4) return static_cast<T>(verif_u32(n));
+  else return static_cast<T>(verif_u64(n));
+}
 template <typename T> constexpr i128 lo() { return static_cast<i128>(std::numeric_limits<T>::min()); }
 template <typename T> constexpr i128 hi() { return static_cast<i128>(std::numeric_limits<T>::max()); }
 template <typename T> constexpr unsigned digits() { return static_cast<unsigned>(std::numeric_limits<T>::digits); }
